@@ -478,7 +478,7 @@ def clauses(tier):
             "the shape; non-trivial = >= 2 distinct block commands, >= 2 blocks per channel and one of "
             "{QLPC, BITSHIFT>0, BLOCKSIZE, ZERO, multi-channel}; distinct by the whole program",
             programs, quick=700, thorough=80000, sample_fmt=_fmt,
-        ),
+         fuzz_runs=2500),
         Clause(
             "vectors", check_vector,
             "the six sph2pipe vectors, from a stream and from a path, equal their reference WAVs (the oracle encoder and "
@@ -491,5 +491,5 @@ def clauses(tier):
             "command code at any command position, version bytes outside {1,2}: IOError and nothing else; "
             "non-trivial = at least two blocks before the cut / code not at the first command",
             _error_cases, quick=150, thorough=16000, sample_fmt=_fmt,
-        ),
+         fuzz_runs=2500),
     ]
